@@ -221,9 +221,18 @@ func (g *fnGen) eval(e SExpr, env *evalEnv) (string, types.Type, error) {
 			if env.outer != nil {
 				wenv = env.outer // a pred body sees no locals; its witnesses come from the clause that uses it
 			}
+			if env.mode == "axiom" || wenv.mode == "axiom" {
+				cands = nil // an axiom is closed: nothing of the function under verification may enter it
+			}
 			for _, cn := range cands {
+				if _, isBound := wenv.bound[cn]; isBound {
+					continue // the name denotes a bound variable of an enclosing quantifier, not the local
+				}
 				cv, ct, err := g.evalIdent(cn, wenv)
 				if err != nil || ct == nil {
+					continue
+				}
+				if bt, ok := ct.Underlying().(*types.Basic); !ok || bt.Info()&types.IsInteger == 0 {
 					continue
 				}
 				we := *env
@@ -1229,7 +1238,15 @@ func (g *fnGen) axiomRelevant(ax *Axiom) bool {
 	if ax.PkgPath != "" && ax.PkgPath == g.ct.PkgPath {
 		return true
 	}
-	return g.mentionsAny(specFuncsIn(ax.E))
+	// only declared spec / ghost functions count: every contract mentions len(), old(), ... and would
+	// otherwise pull in every axiom that happens to use them
+	names := map[string]bool{}
+	for n := range specFuncsIn(ax.E) {
+		if _, declared := g.P.cs.Ghosts[n]; declared {
+			names[n] = true
+		}
+	}
+	return g.mentionsAny(names)
 }
 
 func specFuncsIn(e SExpr) map[string]bool {
@@ -1277,12 +1294,28 @@ func specFuncsIn(e SExpr) map[string]bool {
 }
 
 func (g *fnGen) mentionsAny(fs map[string]bool) bool {
-	check := func(cs []Clause) bool {
-		for _, c := range cs {
-			for f := range specFuncsIn(c.E) {
-				if fs[f] {
+	// names mentioned by an expression, preds (macros) expanded: a contract that says hl(h) mentions nl
+	var mentions func(e SExpr, depth int) bool
+	mentions = func(e SExpr, depth int) bool {
+		if e == nil {
+			return false
+		}
+		for f := range specFuncsIn(e) {
+			if fs[f] {
+				return true
+			}
+			if gf, ok := g.P.cs.Ghosts[f]; ok && gf.Macro && gf.Def != nil && depth < 4 {
+				if mentions(gf.Def, depth+1) {
 					return true
 				}
+			}
+		}
+		return false
+	}
+	check := func(cs []Clause) bool {
+		for _, c := range cs {
+			if mentions(c.E, 0) {
+				return true
 			}
 		}
 		return false
@@ -1292,6 +1325,11 @@ func (g *fnGen) mentionsAny(fs map[string]bool) bool {
 	}
 	for _, l := range g.ct.Loops {
 		if check(l.Invariants) {
+			return true
+		}
+	}
+	for _, h := range g.ct.Hooks {
+		if mentions(h.E, 0) {
 			return true
 		}
 	}
